@@ -5,7 +5,7 @@ pid, sfx, angle = sys.argv[1], sys.argv[2], sys.argv[3]
 p = [json.loads(l) for l in open('/verif/properties.jsonl') if json.loads(l)['id'] == pid][0]
 wt = "/tmp/seed-%s%s" % (pid.lower(), sfx)
 subprocess.run(["git", "-C", "/repo", "worktree", "add", "--detach", wt, "HEAD"], stdout=subprocess.DEVNULL, stderr=subprocess.DEVNULL)
-txt = (f"""You are helping to evaluate a verification tool by acting as a careful "bug seeder". You have your own scratch git worktree of the C/assembly library intel isa-l_crypto at {wt} (work ONLY inside it; never touch /repo or /verif, do not read anything under /verif). Build with `make -f Makefile.unx -j16` (static lib at bin/isa-l_crypto.a, about 1 min; add `FIPS_MODE=y` for a FIPS-mode build); the existing test suite is run with `make -f Makefile.unx -j16 check` (and `make -f Makefile.unx -j16 test` for the unit tests). nasm, gcc, gdb are installed; the host CPU supports SSE4, AVX2, AVX-512, SHA-NI, VAES, VPCLMULQDQ, so every CPU-specific implementation can be executed by calling its internal symbol (e.g. `_sha256_ctx_mgr_submit_sse`, `_aes_gcm_enc_128_avx_gen2`, `_XTS_AES_128_dec_avx`: see `nm bin/isa-l_crypto.a`) directly from a test program linked against the static library, even though the dispatcher would pick the AVX-512 one on this host. No network.
+txt = (f"""You are helping to evaluate a verification tool by acting as a careful "bug seeder". You have your own scratch git worktree of the C/assembly library intel isa-l_crypto at {wt} (work ONLY inside it; never touch /repo or /verif, do not read anything under /verif). Build with `make -f Makefile.unx -j16` (static lib at bin/isa-l_crypto.a, about 1 min; add `FIPS_MODE=y` for a FIPS-mode build); the existing test suite is run with `make -f Makefile.unx -k -j16 check` (and `make -f Makefile.unx -k -j16 test` for the unit tests); NOTE: in this gcc -O2 build `mh_sha256_test` (and possibly mh_sha256 unit tests) FAIL even on the unmodified tree because the test's own reference file mh_sha256_ref.c is miscompiled at -O2 — ignore exactly those; every other test must pass. nasm, gcc, gdb are installed; the host CPU supports SSE4, AVX2, AVX-512, SHA-NI, VAES, VPCLMULQDQ, so every CPU-specific implementation can be executed by calling its internal symbol (e.g. `_sha256_ctx_mgr_submit_sse`, `_aes_gcm_enc_128_avx_gen2`, `_XTS_AES_128_dec_avx`: see `nm bin/isa-l_crypto.a`) directly from a test program linked against the static library, even though the dispatcher would pick the AVX-512 one on this host. No network.
 
 Here is a semantic property the library is supposed to satisfy:
 
@@ -16,7 +16,7 @@ QUANTIFIER: {p['quantifier']['text']}
 WHY THE EXISTING TESTS CANNOT SETTLE IT: {p['why_tests_cant']}
 RELEVANT FILES: {', '.join(p['anchors']['files'])}
 
-YOUR TASK: produce ONE realistic change to the library source (the kind of mistake a maintainer could make in a refactor, optimisation or clean-up) that BREAKS this property while the library still compiles and the ENTIRE existing test suite still passes (`make -f Makefile.unx -j16 check` must pass with your change; run it). The change must need something SPECIFIC to manifest — not something ordinary use exposes at once. ANGLE FOR THIS ASSIGNMENT: {angle}. Prefer subtle over blatant; keep the diff small. Do NOT touch test files, headers' documented contracts, or build files.
+YOUR TASK: produce ONE realistic change to the library source (the kind of mistake a maintainer could make in a refactor, optimisation or clean-up) that BREAKS this property while the library still compiles and the ENTIRE existing test suite still passes (`make -f Makefile.unx -k -j16 check` must show no failure other than the pre-existing mh_sha256 ones; run it before and after). The change must need something SPECIFIC to manifest — not something ordinary use exposes at once. ANGLE FOR THIS ASSIGNMENT: {angle}. Prefer subtle over blatant; keep the diff small. Do NOT touch test files, headers' documented contracts, or build files.
 
 DELIVER, inside {wt}/_seed/:
  - patch.diff : `git diff` of your change against HEAD (library source files only),
